@@ -147,6 +147,10 @@ structure StmtSpec (fc : FCtx) (prev : Option Nat) (s : Stmt) (st : St) : Prop w
     ikeys row = []
   regen : ∀ (ext : List Row) (fuel : Nat), FreshS st.pop.length (buildStmt fc prev s st).2.pop.length ext →
     szS s ≤ fuel → regenSmt ((buildStmt fc prev s st).2.pop ++ ext) fuel st.pop.length = genStmt s
+  subsAll : ∀ (ext : List Row) (i b' : Nat) (p : Option Nat),
+    ((buildStmt fc prev s st).2.pop ++ ext)[i]? = some (.smt b' p) → st.pop.length ≤ i →
+    i < (buildStmt fc prev s st).2.pop.length →
+    ∃ row, smtSub ((buildStmt fc prev s st).2.pop ++ ext) i = some row ∧ row.smtOf = some i
 
 /-- a statement without nested blocks: ACT_SMT, then value / variable rows, then the R603 subtype row -/
 theorem simple_spec {fc : FCtx} {prev : Option Nat} {s : Stmt} {st : St} (mid : St) (sub : Row)
@@ -177,7 +181,7 @@ theorem simple_spec {fc : FCtx} {prev : Option Nat} {s : Stmt} {st : St} (mid : 
     rw [this, List.getElem?_cons_succ] at hx
     have := (hrows x (List.mem_of_getElem? hx)).1
     rw [this]; simp
-  refine ⟨hok0, by rw [hb], ⟨dm ++ [sub], ?_, ?_, ?_⟩, ⟨?_, ?_, ?_⟩, ?_, ?_, ?_⟩
+  refine ⟨hok0, by rw [hb], ⟨dm ++ [sub], ?_, ?_, ?_⟩, ⟨?_, ?_, ?_⟩, ?_, ?_, ?_, ?_⟩
   · rw [hb]; simp [hdm]
   · simp; omega
   · intro x hx
@@ -200,6 +204,23 @@ theorem simple_spec {fc : FCtx} {prev : Option Nat} {s : Stmt} {st : St} (mid : 
   · intro ext fuel _ hf
     rw [hb]
     exact hregen ext fuel hf (hfind ext)
+  · intro ext i b' p hi hge hlt
+    rw [hb] at hi hlt ⊢
+    simp only [new_pop] at hi hlt ⊢
+    by_cases hin : i = st.pop.length
+    · subst hin; exact ⟨sub, hfind ext, hsub⟩
+    · exfalso
+      rw [List.getElem?_append_left hlt, hdm] at hi
+      have h1 : (st.pop ++ Row.smt (curBlkD st.scopes) prev :: dm ++ [sub])[i]? =
+          (dm ++ [sub])[i - st.pop.length - 1]? := by
+        rw [List.append_assoc, List.getElem?_append_right hge]
+        have : i - st.pop.length = (i - st.pop.length - 1) + 1 := by omega
+        rw [this]; simp
+      rw [h1] at hi
+      have hm := List.mem_of_getElem? hi
+      rcases List.mem_append.1 hm with h | h
+      · have := (hrows _ h).2; simp [skeys] at this
+      · simp at h; rw [← h] at hsk; simp [skeys] at hsk
 
 @[simp] theorem newSmt_fst (prev : Option Nat) (st : St) : (newSmt prev st).1 = st.pop.length := by simp [newSmt]
 @[simp] theorem newSmt_pop (prev : Option Nat) (st : St) :
@@ -222,11 +243,97 @@ theorem newSmt_ts {prev : Option Nat} {st : St} (hinv : Inv st) (hprev : ∀ k, 
 theorem newSmt_sym {prev : Option Nat} {st : St} (hinv : Inv st) : SymOK (newSmt prev st).2 :=
   hinv.sym.mono (newSmt_scopes prev st) (newSmt_pop prev st)
 
+/-! ### declaring a variable -/
+
+theorem findSym_install {ss : List Scope} (hne : ss ≠ []) (n : String) (v : Nat) (m : String) :
+    findSym (install ss n v) m = if m = n then some v else findSym ss m := by
+  cases ss with
+  | nil => exact absurd rfl hne
+  | cons s rest =>
+    simp only [install, findSym, List.lookup]
+    by_cases h : m = n
+    · subst h; simp
+    · have : (m == n) = false := by simpa using h
+      simp [this, h]
+
+theorem curBlk_install (ss : List Scope) (n : String) (v : Nat) : curBlk (install ss n v) = curBlk ss := by
+  cases ss with
+  | nil => rfl
+  | cons s rest => cases s with | mk h syms => cases h <;> rfl
+
+theorem install_tail (ss : List Scope) (n : String) (v : Nat) : (install ss n v).tail = ss.tail := by
+  cases ss <;> rfl
+
+@[simp] theorem newVar_fst (n : String) (sub : Nat → Row) (m : St) : (newVar n sub m).1 = m.pop.length := by
+  simp [newVar]
+@[simp] theorem newVar_pop (n : String) (sub : Nat → Row) (m : St) :
+    (newVar n sub m).2.pop = m.pop ++ [.var n (curBlkD m.scopes), sub m.pop.length] := by simp [newVar]
+@[simp] theorem newVar_scopes (n : String) (sub : Nat → Row) (m : St) :
+    (newVar n sub m).2.scopes = install m.scopes n m.pop.length := by simp [newVar]
+
+/-- `v_int` / `v_ins` / `v_trn`: the two rows keep `TS` and `SymOK`, the new symbol is found -/
+theorem newVar_ts {n : String} {sub : Nat → Row} {m : St} (hts : TS m.pop)
+    (hsub : ∀ i, (sub i).valOf = none ∧ (sub i).smtOf = none ∧ skeys (sub i) = []) : TS (newVar n sub m).2.pop := by
+  rw [newVar_pop]
+  have : m.pop ++ [Row.var n (curBlkD m.scopes), sub m.pop.length] =
+      (m.pop ++ [Row.var n (curBlkD m.scopes)]) ++ [sub m.pop.length] := by simp
+  rw [this]
+  apply TS.append1
+  · apply hts.append1
+    simp [Row.valOf, Row.smtOf, skeys]
+  · obtain ⟨h1, h2, h3⟩ := hsub m.pop.length
+    simp [h1, h2, h3]
+
+theorem newVar_sym {n : String} {sub : Nat → Row} {m : St} (hs : SymOK m) (hne : m.scopes ≠ []) :
+    SymOK (newVar n sub m).2 := by
+  intro k v hf
+  rw [newVar_scopes, findSym_install hne] at hf
+  rw [newVar_pop]
+  by_cases h : k = n
+  · subst h; simp at hf; subst hf
+    exact ⟨curBlkD m.scopes, by simp⟩
+  · simp [h] at hf
+    obtain ⟨b, hb⟩ := hs k v hf
+    have : v < m.pop.length := by
+      rcases Nat.lt_or_ge v m.pop.length with h' | h'
+      · exact h'
+      · simp [List.getElem?_eq_none h'] at hb
+    exact ⟨b, by rw [List.getElem?_append_left this]; exact hb⟩
+
+theorem scopes_ne_of_curBlk {ss : List Scope} {b : Nat} (h : curBlk ss = some b) : ss ≠ [] := by
+  intro h'; subst h'; simp [curBlk] at h
+
+/-- `declVar` under `ok`, for a name other than `self`: the visible variable, or a fresh V_VAR + subtype -/
+theorem declVar_cases {fc : FCtx} {v kl : String} {many : Bool} {m : St} (hok : (declVar fc v many kl m).2.ok = true)
+    (hv : v ≠ "self") :
+    (∃ x, findSym m.scopes v = some x ∧ declVar fc v many kl m = (x, m)) ∨
+    (findSym m.scopes v = none ∧ ∃ c : Bool, declVar fc v many kl m =
+      newVar v (fun i => if many then .vins i kl else .vint i kl) (m.guard c)) := by
+  unfold declVar at hok ⊢
+  cases hc : (canonName v != v || lowerStr v == "sender") with
+  | true =>
+    simp [lookupVar, hc] at hok
+    cases many <;> simp [newVar_ok] at hok
+  | false =>
+    rw [lookupVar_eq hc] at hok ⊢
+    have hs : (v == "self") = false := by simpa using hv
+    cases hf : findSym m.scopes v with
+    | some x => left; exact ⟨x, rfl, by simp⟩
+    | none =>
+      right
+      refine ⟨rfl, (v != "self" && fc.classes.contains kl), ?_⟩
+      simp only [hs]
+      cases many <;> simp
+
 /-- the statements the statement-level theorem covers (no nested block; instance names other than `self`) -/
 def coreS : Stmt → Bool
   | .brk | .cont | .ctl | .ret none | .createNV _ => true
   | .ret (some e) => coreE e
   | .delete v => v != "self"
+  | .create v _ => v != "self"
+  | .assign (.var n) r => n != "self" && coreE r
+  | .assign (.field h _) r => coreE h && coreE r
+  | .selFrom card v _ => v != "self" && lowerStr card == card
   | .relate a b _ _ | .unrelate a b _ _ => a != "self" && b != "self"
   | .relateU a b _ _ u | .unrelateU a b _ _ u => a != "self" && b != "self" && u != "self"
   | _ => false
@@ -272,6 +379,203 @@ theorem bare_spec {fc : FCtx} {prev : Option Nat} {s : Stmt} {st : St} (sub : Ro
     obtain ⟨f, rfl⟩ := fuel_succ hf
     rw [hg] at hs ⊢
     exact hregen ext f hs
+
+/-- a statement that is an ACT_SMT, a variable looked up or declared (`v_int` / `v_ins`), and the subtype row -/
+theorem decl_spec {fc : FCtx} {prev : Option Nat} {s : Stmt} {st : St} (v kl : String) (many c0 : Bool) (mk : Nat → Row)
+    (hb : buildStmt fc prev s st = (st.pop.length,
+      ((declVar fc v many kl ((newSmt prev st).2.guard c0)).2.new
+        (mk (declVar fc v many kl ((newSmt prev st).2.guard c0)).1)).2))
+    (hinv : Inv st) (hprev : ∀ k, prev = some k → k < st.pop.length)
+    (hok : (buildStmt fc prev s st).2.ok = true) (hv : v ≠ "self") (hsz : szS s = 1)
+    (hmk : ∀ x, (mk x).smtOf = some st.pop.length ∧ skeys (mk x) = [] ∧ (mk x).valOf = none)
+    (hregen : ∀ (q : FlatPop) (f x : Nat), smtSub q st.pop.length = some (mk x) → regenVar q x = [nameTok v] →
+      regenSmt q (f + 1) st.pop.length = genStmt s) :
+    StmtSpec fc prev s st := by
+  have hokD : (declVar fc v many kl ((newSmt prev st).2.guard c0)).2.ok = true := by
+    rw [hb] at hok; simpa using hok
+  have hts0 : TS ((newSmt prev st).2.guard c0).pop := by simpa using newSmt_ts hinv hprev
+  have hsym0 : SymOK ((newSmt prev st).2.guard c0) :=
+    hinv.sym.mono (by simp) (d := [.smt (curBlkD st.scopes) prev]) (by simp)
+  obtain ⟨b, hbk, hblt⟩ := hinv.blk
+  rcases declVar_cases hokD hv with ⟨x, hf, hd⟩ | ⟨hf, c, hd⟩
+  · rw [hd] at hb hokD
+    have hok0 : st.ok = true := by simp at hokD; exact hokD.1.1
+    apply simple_spec _ (mk x) hb hinv hok0
+    · exact ⟨[], by simp, by simp [hsz], by simp⟩
+    · exact hts0
+    · exact hsym0
+    · simp
+    · exact (hmk x).1
+    · exact (hmk x).2.1
+    · exact (hmk x).2.2
+    · intro ext fuel hfu hs
+      rw [hsz] at hfu
+      obtain ⟨f, rfl⟩ := fuel_succ hfu
+      obtain ⟨bx, hbx⟩ := sym_row hsym0 hf ([mk x] ++ ext)
+      rw [← List.append_assoc] at hbx
+      exact hregen _ f x hs (regenVar_name hbx)
+  · rw [hd] at hb hokD
+    have hok0 : st.ok = true := by simp [newVar_ok] at hokD; exact hokD.1.1.1.1
+    have hsubf : ∀ i, (if many then Row.vins i kl else Row.vint i kl).valOf = none ∧
+        (if many then Row.vins i kl else Row.vint i kl).smtOf = none ∧
+        skeys (if many then Row.vins i kl else Row.vint i kl) = [] := by
+      intro i; cases many <;> simp [Row.valOf, Row.smtOf, skeys]
+    simp only [newVar_fst, guard_pop, newSmt_pop] at hb
+    apply simple_spec _ _ hb hinv hok0
+    · refine ⟨[.var v (curBlkD st.scopes), if many then .vins (st.pop.length + 1) kl else .vint (st.pop.length + 1) kl],
+        by simp, by simp [hsz], ?_⟩
+      intro y hy
+      simp at hy
+      rcases hy with rfl | rfl
+      · simp [Row.smtOf, skeys]
+      · exact ⟨(hsubf _).2.1, (hsubf _).2.2⟩
+    · exact newVar_ts (by simpa using hts0) hsubf
+    · exact newVar_sym (hsym0.mono (by simp) (d := []) (by simp)) (by simpa using scopes_ne_of_curBlk hbk)
+    · simp [curBlk_install, install_tail]
+    · exact (hmk _).1
+    · exact (hmk _).2.1
+    · exact (hmk _).2.2
+    · intro ext fuel hfu hs
+      rw [hsz] at hfu
+      obtain ⟨f, rfl⟩ := fuel_succ hfu
+      apply hregen _ f _ hs
+      apply regenVar_name (b := curBlkD st.scopes)
+      simp
+
+theorem expr_rows_plain {fc : FCtx} {e : Expr} {st : St} {d : List Row}
+    (ho : ∀ r ∈ d, r.smtOf = none ∧ r.varOf = none ∧ (∀ b q, r ≠ .smt b q) ∧ (∀ o, r ≠ .blk o)) :
+    ∀ x ∈ d, x.smtOf = none ∧ skeys x = [] := by
+  intro x hx
+  obtain ⟨h1, _, h3, _⟩ := ho x hx
+  refine ⟨h1, ?_⟩
+  cases x with
+  | smt b p => exact absurd rfl (h3 b p)
+  | el _ _ _ _ => simp [Row.smtOf] at h1
+  | e _ _ _ => simp [Row.smtOf] at h1
+  | _ => rfl
+
+/-- assignment whose l-value is accepted like a value (an attribute, a visible variable) -/
+theorem assign_expr_spec {fc : FCtx} {prev : Option Nat} {l r : Expr} {st : St} (M0 : St)
+    (hM0p : M0.pop = st.pop ++ [.smt (curBlkD st.scopes) prev]) (hM0s : M0.scopes = st.scopes)
+    (hM0ok : M0.ok = true → st.ok = true)
+    (hb : buildStmt fc prev (.assign l r) st = (st.pop.length,
+      ((buildExpr fc l (buildExpr fc r M0).2).2.new
+        (.ai st.pop.length (buildExpr fc r M0).1 (buildExpr fc l (buildExpr fc r M0).2).1)).2))
+    (hinv : Inv st) (hprev : ∀ k, prev = some k → k < st.pop.length) (hcr : coreE r = true) (hcl : coreE l = true)
+    (hok : (buildStmt fc prev (.assign l r) st).2.ok = true) : StmtSpec fc prev (.assign l r) st := by
+  have hokL : (buildExpr fc l (buildExpr fc r M0).2).2.ok = true := by rw [hb] at hok; simpa using hok
+  have hokR : (buildExpr fc r M0).2.ok = true := buildExpr_ok_mono fc l _ hokL
+  have hts0 : TS M0.pop := by rw [hM0p]; simpa using newSmt_ts hinv hprev
+  have hsym0 : SymOK M0 := hinv.sym.mono hM0s hM0p
+  have R := buildExpr_spec fc r M0 hcr hsym0 hts0.tsv hokR
+  have L := buildExpr_spec fc l (buildExpr fc r M0).2 hcl (R.symOK hsym0) R.tsv hokL
+  obtain ⟨dR, hdR, hlR, _, hoR⟩ := R.grows
+  obtain ⟨dL, hdL, hlL, _, hoL⟩ := L.grows
+  apply simple_spec _ _ hb hinv (hM0ok R.ok0)
+  · refine ⟨dR ++ dL, by rw [hdL, hdR, hM0p]; simp, by simp [szS]; omega, ?_⟩
+    intro x hx
+    rcases List.mem_append.1 hx with h | h
+    · exact expr_rows_plain (fc := fc) (e := r) (st := st) hoR x h
+    · exact expr_rows_plain (fc := fc) (e := l) (st := st) hoL x h
+  · exact (hts0.expr R).expr L
+  · exact L.symOK (R.symOK hsym0)
+  · rw [L.scopes, R.scopes, hM0s]; simp
+  · rfl
+  · rfl
+  · rfl
+  · intro ext fuel hf hs
+    simp only [szS] at hf
+    obtain ⟨f, rfl⟩ := fuel_succ (by omega : 1 ≤ fuel)
+    have h1 := L.regen ([.ai st.pop.length (buildExpr fc r M0).1 (buildExpr fc l (buildExpr fc r M0).2).1] ++ ext) f (by omega)
+    have h2 := R.regen (dL ++ [.ai st.pop.length (buildExpr fc r M0).1 (buildExpr fc l (buildExpr fc r M0).2).1] ++ ext) f (by omega)
+    rw [← List.append_assoc] at h1
+    rw [← List.append_assoc, ← List.append_assoc, ← hdL] at h2
+    simp only [regenSmt, hs, genStmt, h1, h2]
+
+theorem new_transient_regen {P ext : FlatPop} {n : String} {b0 b1 s rv : Nat} (hts : TSv P) (hn : n ≠ "self") (f : Nat) :
+    regenVal (P ++ [.var n b0, .vtrn P.length] ++ [.val b1] ++ [.tvl (P.length + 2) P.length] ++
+      [.ai s rv (P.length + 2)] ++ ext) (f + 1) (P.length + 2) = [Tok.ident n] := by
+  have hp : P ++ [Row.var n b0, Row.vtrn P.length] ++ [Row.val b1] ++ [Row.tvl (P.length + 2) P.length] ++
+      [Row.ai s rv (P.length + 2)] ++ ext =
+      (P ++ [Row.var n b0, Row.vtrn P.length, Row.val b1, Row.tvl (P.length + 2) P.length]) ++
+      ([Row.ai s rv (P.length + 2)] ++ ext) := by simp
+  rw [hp]
+  have hsub : valSub ((P ++ [Row.var n b0, Row.vtrn P.length, Row.val b1, Row.tvl (P.length + 2) P.length]) ++
+      ([Row.ai s rv (P.length + 2)] ++ ext)) (P.length + 2) = some (.tvl (P.length + 2) P.length) := by
+    apply valSub_at
+    · apply hts.append
+      intro j r k hj hr
+      match j, hj with
+      | 0, hj => simp at hj; subst hj; simp [Row.valOf] at hr
+      | 1, hj => simp at hj; subst hj; simp [Row.valOf] at hr
+      | 2, hj => simp at hj; subst hj; simp [Row.valOf] at hr
+      | 3, hj => simp at hj; subst hj; simp [Row.valOf] at hr; omega
+      | j + 4, hj => simp at hj
+    · have : P.length + 2 + 1 - P.length = 3 := by omega
+      rw [List.getElem?_append_right (by omega), this]; rfl
+    · rfl
+  have hvar : ((P ++ [Row.var n b0, Row.vtrn P.length, Row.val b1, Row.tvl (P.length + 2) P.length]) ++
+      ([Row.ai s rv (P.length + 2)] ++ ext))[P.length]? = some (.var n b0) := by simp
+  simp only [regenVal, hsub, regenVar_of hvar hn]
+
+/-- first assignment to an unknown name: V_VAR + V_TRN, then the l-value's V_VAL + V_TVL -/
+theorem assign_new_spec {fc : FCtx} {prev : Option Nat} {n : String} {r : Expr} {st : St} (M0 : St)
+    (hM0p : M0.pop = st.pop ++ [.smt (curBlkD st.scopes) prev]) (hM0s : M0.scopes = st.scopes)
+    (hM0ok : M0.ok = true → st.ok = true) (c : Bool)
+    (hb : buildStmt fc prev (.assign (.var n) r) st = (st.pop.length,
+      (((newVal (newVar n (fun v => .vtrn v) ((buildExpr fc r M0).2.guard c)).2).2.new
+        (.tvl (newVal (newVar n (fun v => .vtrn v) ((buildExpr fc r M0).2.guard c)).2).1
+          (newVar n (fun v => .vtrn v) ((buildExpr fc r M0).2.guard c)).1)).2.new
+        (.ai st.pop.length (buildExpr fc r M0).1
+          (newVal (newVar n (fun v => .vtrn v) ((buildExpr fc r M0).2.guard c)).2).1)).2))
+    (hinv : Inv st) (hprev : ∀ k, prev = some k → k < st.pop.length) (hcr : coreE r = true) (hn : n ≠ "self")
+    (hok : (buildStmt fc prev (.assign (.var n) r) st).2.ok = true) : StmtSpec fc prev (.assign (.var n) r) st := by
+  have hokR : (buildExpr fc r M0).2.ok = true := by
+    rw [hb] at hok; simp [newVar_ok] at hok; exact hok.1.1.1
+  have hts0 : TS M0.pop := by rw [hM0p]; simpa using newSmt_ts hinv hprev
+  have hsym0 : SymOK M0 := hinv.sym.mono hM0s hM0p
+  have R := buildExpr_spec fc r M0 hcr hsym0 hts0.tsv hokR
+  obtain ⟨dR, hdR, hlR, _, hoR⟩ := R.grows
+  obtain ⟨b, hbk, hblt⟩ := hinv.blk
+  have hsc : (buildExpr fc r M0).2.scopes = st.scopes := by rw [R.scopes, hM0s]
+  have hne : ((buildExpr fc r M0).2.guard c).scopes ≠ [] := by
+    simp [hsc]; exact scopes_ne_of_curBlk hbk
+  simp only [newVar_fst, newVal_fst, newVar_pop, guard_pop, List.length_append, List.length_cons, List.length_nil] at hb
+  apply simple_spec _ _ hb hinv (hM0ok R.ok0)
+  · refine ⟨dR ++ [.var n (curBlkD st.scopes), .vtrn (buildExpr fc r M0).2.pop.length, .val (curBlkD st.scopes),
+      .tvl ((buildExpr fc r M0).2.pop.length + 2) (buildExpr fc r M0).2.pop.length], ?_, by simp [szS, szV]; omega, ?_⟩
+    · simp [hdR, hM0p, hsc, curBlkD, curBlk_install]
+    · intro x hx
+      rcases List.mem_append.1 hx with h | h
+      · exact expr_rows_plain (fc := fc) (e := r) (st := st) hoR x h
+      · simp at h
+        rcases h with rfl | rfl | rfl | rfl <;> simp [Row.smtOf, skeys]
+  · simp only [new_pop, newVal_pop]
+    apply TS.append1
+    · apply TS.append1
+      · exact newVar_ts (by simpa using hts0.expr R) (fun i => by simp [Row.valOf, Row.smtOf, skeys])
+      · simp [Row.valOf, Row.smtOf, skeys]
+    · simp [Row.valOf, Row.smtOf, skeys]
+  · have hV : SymOK (newVar n (fun v => .vtrn v) ((buildExpr fc r M0).2.guard c)).2 :=
+      newVar_sym ((R.symOK hsym0).mono (st' := (buildExpr fc r M0).2.guard c) (by simp) (d := []) (by simp)) hne
+    have hW := hV.mono (st' := (newVal (newVar n (fun v => .vtrn v) ((buildExpr fc r M0).2.guard c)).2).2)
+      (newVal_scopes _) (newVal_pop _)
+    exact hW.mono (new_scopes _ _) (new_pop _ _)
+  · simp [curBlk_install, install_tail, hsc]
+  · rfl
+  · rfl
+  · rfl
+  · intro ext fuel hf hs
+    simp only [szS, szV] at hf
+    obtain ⟨f, rfl⟩ := fuel_succ (by omega : 1 ≤ fuel)
+    obtain ⟨f', rfl⟩ := fuel_succ (by omega : 1 ≤ f)
+    simp only [regenSmt, hs, genStmt, genExpr]
+    have e : (buildExpr fc r M0).2.pop.length + (0 + 1 + 1) = (buildExpr fc r M0).2.pop.length + 2 := rfl
+    simp only [e, new_pop, newVal_pop, newVar_pop, guard_pop]
+    rw [new_transient_regen R.tsv hn]
+    have assoc : ∀ (a b c d x : Row), (buildExpr fc r M0).2.pop ++ [a, b] ++ [c] ++ [d] ++ [x] ++ ext =
+        (buildExpr fc r M0).2.pop ++ ([a, b, c, d, x] ++ ext) := by intros; simp
+    rw [assoc, R.regen _ (f' + 1) (by omega)]
 
 theorem guard_true (st : St) : st.guard true = st := by simp [St.guard]
 
@@ -403,6 +707,135 @@ theorem buildStmt_spec (fc : FCtx) (s : Stmt) (prev : Option Nat) (st : St) (hc 
     rw [← List.append_assoc] at hbx hby hbz
     simp only [regenSmt, h, genStmt, regenVar_name hbx, regenVar_name hby, regenVar_name hbz, phraseOf, phraseToks]
     simp
+  | assign l r =>
+    have hM0ok : ((newSmt prev st).2.guard (plainE (newSmt prev st).2 r)).ok = true → st.ok = true := by
+      intro h; simp at h; exact h.1.1
+    cases l with
+    | field h a =>
+      simp only [coreS, Bool.and_eq_true] at hc
+      exact assign_expr_spec ((newSmt prev st).2.guard (plainE (newSmt prev st).2 r)) (by simp) (by simp) hM0ok
+        (by simp [buildStmt, buildLval]) hinv hprev hc.2 (by simpa [coreE] using hc.1) hok
+    | var n =>
+      simp only [coreS, Bool.and_eq_true, bne_iff_ne, ne_eq] at hc
+      have hn : n ≠ "self" := hc.1
+      have hg : ∀ m : St, m.guard (n != "self") = m := by intro m; simp [St.guard, hn]
+      cases hcnd : (canonName n != n || lowerStr n == "sender") with
+      | true =>
+        simp [buildStmt, buildLval, lookupVar, hcnd, newVar_ok, hg] at hok
+      | false =>
+        cases hf : findSym (buildExpr fc r ((newSmt prev st).2.guard (plainE (newSmt prev st).2 r))).2.scopes n with
+        | some x =>
+          have hbl : buildLval fc (.var n) (buildExpr fc r ((newSmt prev st).2.guard (plainE (newSmt prev st).2 r))).2 =
+              buildExpr fc (.var n) (buildExpr fc r ((newSmt prev st).2.guard (plainE (newSmt prev st).2 r))).2 := by
+            simp [buildLval, lookupVar_eq hcnd, hg, hf]
+          exact assign_expr_spec ((newSmt prev st).2.guard (plainE (newSmt prev st).2 r)) (by simp) (by simp) hM0ok
+            (by simp [buildStmt, hbl]) hinv hprev hc.2 rfl hok
+        | none =>
+          have hs : (n == "self") = false := by simpa using hn
+          exact assign_new_spec ((newSmt prev st).2.guard (plainE (newSmt prev st).2 r)) (by simp) (by simp) hM0ok
+            (n != "self") (by simp [buildStmt, buildLval, lookupVar_eq hcnd, hg, hf, hs]) hinv hprev hc.2 hn hok
+    | _ => simp [coreS] at hc
+  | create v kl =>
+    simp only [coreS, bne_iff_ne, ne_eq] at hc
+    refine decl_spec v kl false (v != "self" && fc.classes.contains kl) (fun x => .cr st.pop.length x kl)
+      (by simp [buildStmt]) hinv hprev hok hc rfl (fun x => ⟨rfl, rfl, rfl⟩) ?_
+    intro q f x h hx
+    simp only [regenSmt, h, genStmt, hx]
+    simp [nameTok, hc]
+  | selFrom card v kl =>
+    simp only [coreS, bne_iff_ne, ne_eq, Bool.and_eq_true, beq_iff_eq, decide_eq_true_eq] at hc
+    refine decl_spec v kl (isMany card) (v != "self" && fc.classes.contains kl)
+      (fun x => .fio st.pop.length x kl (lowerStr card))
+      (by simp [buildStmt]) hinv hprev hok hc.1 rfl (fun x => ⟨rfl, rfl, rfl⟩) ?_
+    intro q f x h hx
+    simp only [regenSmt, h, genStmt, hx]
+    simp [nameTok, hc.1, hc.2]
+  | _ => simp [coreS] at hc
+
+/-! ### the flag is never set back -/
+
+theorem declVar_ok_mono {fc : FCtx} {v kl : String} {many : Bool} {m : St} (hok : (declVar fc v many kl m).2.ok = true)
+    (hv : v ≠ "self") : m.ok = true := by
+  rcases declVar_cases hok hv with ⟨x, _, hd⟩ | ⟨_, c, hd⟩
+  · rw [hd] at hok; exact hok
+  · rw [hd] at hok; simp [newVar_ok] at hok; exact hok.1.1
+
+theorem lookupVar_ok_mono {fc : FCtx} {n : String} {m : St} (h : (lookupVar fc n m).2.ok = true) : m.ok = true := by
+  cases hc : (canonName n != n || lowerStr n == "sender") with
+  | true => simp [lookupVar, hc] at h
+  | false =>
+    rw [lookupVar_eq hc] at h
+    cases hf : findSym m.scopes n with
+    | some v => simpa [hf] using h
+    | none =>
+      cases hs : n == "self" with
+      | false => simpa [hf, hs] using h
+      | true =>
+        cases hk : fc.selfKl with
+        | none => simpa [hf, hs, hk] using h
+        | some kl => simp [hf, hs, hk, newVar_ok] at h; exact h.1
+
+theorem buildLval_ok_mono {fc : FCtx} {l : Expr} {m : St} (h : (buildLval fc l m).2.ok = true) : m.ok = true := by
+  cases l with
+  | var n =>
+    simp only [buildLval] at h
+    split at h
+    · exact buildExpr_ok_mono fc _ _ h
+    · rename_i s heq
+      simp [newVar_ok] at h
+      have : (lookupVar fc n (m.guard (n != "self"))).2.ok = true := by rw [heq]; exact h.1.1
+      have := lookupVar_ok_mono this
+      simp at this; exact this.1
+  | field e a => exact buildExpr_ok_mono fc _ _ (by simpa [buildLval] using h)
+  | _ => simp [buildLval] at h
+
+theorem buildStmt_ok_mono_core {fc : FCtx} {prev : Option Nat} {s : Stmt} {st : St} (hc : coreS s = true)
+    (h : (buildStmt fc prev s st).2.ok = true) : st.ok = true := by
+  cases s with
+  | brk | cont | ctl => simp [buildStmt] at h; exact h.1
+  | createNV kl => simp [buildStmt] at h; exact h.1.1
+  | ret oe =>
+    cases oe with
+    | none => simp [buildStmt] at h; exact h.1
+    | some e =>
+      have := buildExpr_ok_mono fc e _ (by simpa [buildStmt] using h)
+      simp at this; exact this.1
+  | delete v =>
+    have := needVar_ok_mono (show (needVar fc v (newSmt prev st).2).2.ok = true by simpa [buildStmt] using h)
+    simp at this; exact this.1
+  | relate a b r ph =>
+    have := needVar_ok_mono (needVar_ok_mono
+      (show (needVar fc b (needVar fc a (newSmt prev st).2).2).2.ok = true by simpa [buildStmt] using h))
+    simp at this; exact this.1
+  | unrelate a b r ph =>
+    have := needVar_ok_mono (needVar_ok_mono
+      (show (needVar fc b (needVar fc a (newSmt prev st).2).2).2.ok = true by simpa [buildStmt] using h))
+    simp at this; exact this.1
+  | relateU a b r ph u =>
+    have := needVar_ok_mono (needVar_ok_mono (needVar_ok_mono
+      (show (needVar fc u (needVar fc b (needVar fc a (newSmt prev st).2).2).2).2.ok = true by
+        simpa [buildStmt] using h)))
+    simp at this; exact this.1
+  | unrelateU a b r ph u =>
+    have := needVar_ok_mono (needVar_ok_mono (needVar_ok_mono
+      (show (needVar fc u (needVar fc b (needVar fc a (newSmt prev st).2).2).2).2.ok = true by
+        simpa [buildStmt] using h)))
+    simp at this; exact this.1
+  | assign l r =>
+    have h1 : (buildLval fc l (buildExpr fc r ((newSmt prev st).2.guard (plainE (newSmt prev st).2 r))).2).2.ok = true := by
+      simpa [buildStmt] using h
+    have := buildExpr_ok_mono fc r _ (buildLval_ok_mono h1)
+    simp at this; exact this.1.1
+  | create v kl =>
+    simp only [coreS, bne_iff_ne, ne_eq] at hc
+    have := declVar_ok_mono (show (declVar fc v false kl ((newSmt prev st).2.guard
+      (v != "self" && fc.classes.contains kl))).2.ok = true by simpa [buildStmt] using h) hc
+    simp at this; exact this.1.1
+  | selFrom card v kl =>
+    simp only [coreS, bne_iff_ne, ne_eq, Bool.and_eq_true, beq_iff_eq, decide_eq_true_eq] at hc
+    have := declVar_ok_mono (show (declVar fc v (isMany card) kl ((newSmt prev st).2.guard
+      (v != "self" && fc.classes.contains kl))).2.ok = true by simpa [buildStmt] using h) hc.1
+    simp at this; exact this.1.1
   | _ => simp [coreS] at hc
 
 /-! ### the statement-list loop (R661) -/
@@ -483,6 +916,24 @@ def okAll (fc : FCtx) : Option Nat → Block → St → Bool
   | prev, .cons s rest, st =>
     (buildStmt fc prev s st).2.ok && okAll fc (some (buildStmt fc prev s st).1) rest (buildStmt fc prev s st).2
 
+theorem buildStmts_ok_mono_core (fc : FCtx) : ∀ (ss : Block) (prev : Option Nat) (st : St), coreB ss = true →
+    (buildStmts fc prev ss st).ok = true → st.ok = true
+  | .nil, _, st, _, h => by simpa [buildStmts] using h
+  | .cons s rest, prev, st, hc, h => by
+    simp only [coreB, Bool.and_eq_true] at hc
+    simp only [buildStmts] at h
+    exact buildStmt_ok_mono_core hc.1 (buildStmts_ok_mono_core fc rest _ _ hc.2 h)
+
+/-- `ok` of the final state is `ok` after every statement -/
+theorem okAll_of_ok (fc : FCtx) : ∀ (ss : Block) (prev : Option Nat) (st : St), coreB ss = true →
+    (buildStmts fc prev ss st).ok = true → okAll fc prev ss st = true
+  | .nil, _, st, _, h => by simpa [buildStmts, okAll] using h
+  | .cons s rest, prev, st, hc, h => by
+    simp only [coreB, Bool.and_eq_true] at hc
+    simp only [buildStmts] at h
+    simp only [okAll, Bool.and_eq_true]
+    exact ⟨buildStmts_ok_mono_core fc rest _ _ hc.2 h, okAll_of_ok fc rest _ _ hc.2 h⟩
+
 structure ChainSpec (fc : FCtx) (prev : Option Nat) (ss : Block) (st : St) : Prop where
   ok0 : st.ok = true
   inv : Inv (buildStmts fc prev ss st)
@@ -496,6 +947,10 @@ structure ChainSpec (fc : FCtx) (prev : Option Nat) (ss : Block) (st : St) : Pro
     ∃ row, smtSub ((buildStmts fc prev ss st).pop ++ ext) st.pop.length = some row ∧ ikeys row = []
   regen : ∀ (ext : List Row) (fuel : Nat), FreshC st.pop.length (buildStmts fc prev ss st).pop.length ext →
     szB ss ≤ fuel → regenChain ((buildStmts fc prev ss st).pop ++ ext) fuel (headOf st.pop.length ss) = genBlock ss
+  subsAll : ∀ (ext : List Row) (i b' : Nat) (p : Option Nat),
+    ((buildStmts fc prev ss st).pop ++ ext)[i]? = some (.smt b' p) → st.pop.length ≤ i →
+    i < (buildStmts fc prev ss st).pop.length →
+    ∃ row, smtSub ((buildStmts fc prev ss st).pop ++ ext) i = some row ∧ row.smtOf = some i
 
 theorem ikeys_sub_skeys (x : Row) : ∀ k ∈ ikeys x, k ∈ skeys x := by
   intro k hk; cases x <;> simp [ikeys, skeys] at hk ⊢ <;> exact hk
@@ -505,11 +960,13 @@ theorem buildStmts_spec (fc : FCtx) : ∀ (ss : Block) (prev : Option Nat) (st :
   | .nil, prev, st, _, hinv, _, hok => by
     simp only [okAll] at hok
     refine ⟨hok, (by simpa [buildStmts] using hinv), (by simp [buildStmts]), ⟨[], (by simp [buildStmts]), (by simp [szB]),
-      (by intro s rest h; cases h), (by simp)⟩, (by intro ext s rest h; cases h), ?_⟩
-    intro ext fuel _ hf
-    simp only [szB] at hf
-    obtain ⟨f, rfl⟩ := fuel_succ hf
-    simp [headOf, regenChain, genBlock]
+      (by intro s rest h; cases h), (by simp)⟩, (by intro ext s rest h; cases h), ?_, ?_⟩
+    · intro ext fuel _ hf
+      simp only [szB] at hf
+      obtain ⟨f, rfl⟩ := fuel_succ hf
+      simp [headOf, regenChain, genBlock]
+    · intro ext i b' p _ hge hlt
+      simp [buildStmts] at hlt; omega
   | .cons s rest, prev, st, hc, hinv, hprev, hok => by
     simp only [coreB, Bool.and_eq_true] at hc
     simp only [okAll, Bool.and_eq_true] at hok
@@ -541,7 +998,7 @@ theorem buildStmts_spec (fc : FCtx) : ∀ (ss : Block) (prev : Option Nat) (st :
         · subst hxe; simp at h
           have := hprev st.pop.length h.2.symm; omega
         · have := ((hk1 x h).2.1 b' _ hxe).2 st.pop.length rfl; omega
-    refine ⟨S.ok0, by rw [hbs]; exact C.inv, ?_, ⟨.smt (curBlkD st.scopes) prev :: d1 ++ d2, ?_, ?_, ?_, ?_⟩, ?_, ?_⟩
+    refine ⟨S.ok0, by rw [hbs]; exact C.inv, ?_, ⟨.smt (curBlkD st.scopes) prev :: d1 ++ d2, ?_, ?_, ?_, ?_⟩, ?_, ?_, ?_⟩
     · rw [hbs]; exact ⟨C.shape.1.trans S.shape.1, C.shape.2.trans S.shape.2⟩
     · rw [hbs, hd2, hd1]; simp
     · simp [szB]; omega
@@ -639,6 +1096,12 @@ theorem buildStmts_spec (fc : FCtx) : ∀ (ss : Block) (prev : Option Nat) (st :
           have := hfresh x hx k hk
           omega) (by omega)
         simpa [headOf] using congrArg (fun t => genStmt s ++ [Tok.p Pn.semi] ++ t) this
+    · intro ext i b' p hi hge hlt
+      rw [hbs] at hi hlt ⊢
+      by_cases h1 : i < (buildStmt fc prev s st).2.pop.length
+      · rw [hd2, List.append_assoc] at hi ⊢
+        exact S.subsAll (d2 ++ ext) i b' p hi hge h1
+      · exact C.subsAll ext i b' p hi (by omega) hlt
 
 /-! ### whole bodies -/
 
@@ -712,5 +1175,31 @@ theorem prebuildFlat_ts (fc : FCtx) (a : Block) (hc : coreB a = true) (hok : okA
   have hp : prebuildFlat fc a = (buildStmts fc none a bodySt).pop := by
     simp [prebuildFlat, prebuildSt, popScope, bodySt]
   rw [hp]; exact C.inv.ts
+
+/-- every ACT_SMT of the population of a whole `coreB` body has an R603 subtype row -/
+theorem prebuildFlat_subtypes (fc : FCtx) (a : Block) (hc : coreB a = true) (hok : okAll fc none a bodySt = true)
+    (i b' : Nat) (p : Option Nat) (hi : (prebuildFlat fc a)[i]? = some (.smt b' p)) :
+    ∃ row, smtSub (prebuildFlat fc a) i = some row ∧ row.smtOf = some i := by
+  have C := buildStmts_spec fc a none bodySt hc bodySt_inv (by intro k h; cases h) hok
+  have hp : prebuildFlat fc a = (buildStmts fc none a bodySt).pop := by
+    simp [prebuildFlat, prebuildSt, popScope, bodySt]
+  obtain ⟨d, hd, _⟩ := C.grows
+  have hlt : i < (prebuildFlat fc a).length := by
+    rcases Nat.lt_or_ge i (prebuildFlat fc a).length with h' | h'
+    · exact h'
+    · simp [List.getElem?_eq_none h'] at hi
+  have hge : bodySt.pop.length ≤ i := by
+    rcases Nat.lt_or_ge i bodySt.pop.length with h' | h'
+    · rw [hp, hd, List.getElem?_append_left h'] at hi
+      have : i = 0 := by simp [bodySt, pushScope] at h'; omega
+      subst this; simp [bodySt, pushScope] at hi
+    · exact h'
+  have := C.subsAll [] i b' p (by simpa [← hp] using hi) hge (by rw [← hp]; exact hlt)
+  simpa [← hp] using this
+
+theorem okAll_of_flatOk (fc : FCtx) (a : Block) (hc : coreB a = true) (h : flatOk fc a = true) :
+    okAll fc none a bodySt = true := by
+  apply okAll_of_ok fc a none bodySt hc
+  simpa [flatOk, prebuildSt, popScope, bodySt] using h
 
 end Pyx.Prebuild.Flat
